@@ -239,7 +239,7 @@ def main(argv=None):
             if replay is not None and (o['rule'] != replay.get('rule') or o['subject'] != replay.get('subject')):
                 continue
             print('%-11s %-8s %s %s %s' % (o['verdict'], o['rule'], o['subject'][:100], o['disc'], o['detail'][:160]))
-    if replay is None:
+    if replay is None and not os.environ.get('STV_NO_EVIDENCE'):
         level = getattr(mod, 'LEVEL', 'other')
         write_evidence(run, level, len(new), explanation=getattr(mod, 'EXPLANATION', ''))
     nd = sum(1 for o in run.obs if o['verdict'] == 'discharged')
